@@ -806,8 +806,8 @@ def _finalize_parse_info(text, nodes, pos, fullparse):
             start, end = pos_info
             end -= 1
             node._metadata.position_info = _PositionInfo(
-                start=_Position(start, line_numbers[start], column_numbers[start]),
-                end=_Position(end, line_numbers[end], column_numbers[end]),
+                start=_position_at(start, line_numbers, column_numbers),
+                end=_position_at(end, line_numbers, column_numbers),
             )
 
     if fullparse and pos < len(text):
@@ -817,6 +817,14 @@ def _finalize_parse_info(text, nodes, pos, fullparse):
         raise PartialParseError(nodes, position, excerpt)
 
     return nodes
+
+
+def _position_at(index, line_numbers, column_numbers):
+    # An object that matched nothing may sit at the very end of the input (or
+    # "end" before the start); there is no line or column for such an index.
+    if 0 <= index < len(line_numbers):
+        return _Position(index, line_numbers[index], column_numbers[index])
+    return _Position(index, None, None)
 
 
 def _extract_excerpt(text, pos, col):
